@@ -135,10 +135,34 @@ func blockFromWire(b *wire.MsgBlock) Rec {
 
 // --- net addresses
 
+// naToWire builds the Go value of an abstract address record.  One 16-byte
+// wire field has several Go representations and all must encode alike: an
+// IPv4-mapped address is given in Go's 4-byte form when the port is odd
+// (net.IP{a,b,c,d}, To4(), the address of an IPv4 TCP connection) and in the
+// 16-byte form otherwise; the all-zero address with no services is a nil IP.
 func naToWire(r Rec, withTime bool) wire.NetAddress {
+	ip := net.IP(cp(r.B("ip")))
+	if len(ip) == 16 {
+		v4 := ip[10] == 0xff && ip[11] == 0xff
+		zero := true
+		for i, b := range ip {
+			if i < 10 && b != 0 {
+				v4 = false
+			}
+			if b != 0 {
+				zero = false
+			}
+		}
+		switch {
+		case v4 && r.U("port")%2 == 1:
+			ip = net.IP{ip[12], ip[13], ip[14], ip[15]}
+		case zero && r.U("services") == 0:
+			ip = nil
+		}
+	}
 	na := wire.NetAddress{
 		Services: wire.ServiceFlag(r.U("services")),
-		IP:       net.IP(cp(r.B("ip"))),
+		IP:       ip,
 		Port:     uint16(r.U("port")),
 	}
 	if withTime {
